@@ -450,3 +450,7 @@ Proof. vm_compute. reflexivity. Qed.
 Definition ce_panic := [Do (LRecv 0 true); Sw 2; Do (LRecv 2 true); Sw 1; Do (LSend 1 1%N true); Do (LDropTx 1); Sw 2].
 Example ce_assert_fails : option_map recv_woken_answer (run_unchecked ce_panic (S0 None)) = Some None.
 Proof. vm_compute. reflexivity. Qed.
+
+Print Assumptions C06_chan_send_woken_ok.
+Print Assumptions C06_chan_recv_woken_ok.
+Print Assumptions C06_run_checked_reachable.
